@@ -276,6 +276,8 @@ def run(ctx, rep):
     rep.ob("R11.3", "Connection.serve_all: the loop ends when the connection is closed", okl,
            "loop condition reads self.closed" if okl else "serve_all keeps serving a closed connection", fa.loc, kind="site")
 
+    # ------------------------------------------------------------------ R11.4 stream failure/close discipline (= R05.3)
+    K.share(ctx, rep, "c05", lambda o: o.rule == "R05.3", "R11.4", floor=10)
     # ------------------------------------------------------------------ R11.4 channel delegation
     fcl = ctx.func("rpyc.core.channel.Channel.close")
     okc = bool(A.find_calls(fcl.node, "self.stream.close"))
